@@ -65,7 +65,14 @@ def _classes(rechunk_on_load=False):
             r["time"], r["endtime"], r["v"], r["w"] = k["time"], k["endtime"], k["v"] * 2, k["w"] + 1
             return r
     Der.dtype = dtype
-    return [Src, Der]
+
+    def _same(self, k):
+        r = np.zeros(len(k), self.dtype)
+        r["time"], r["endtime"], r["v"], r["w"] = k["time"], k["endtime"], k["v"] + 1, k["w"]
+        return r
+    mk = lambda name, dep: type("P_" + name, (strax.Plugin,), dict(provides=name, depends_on=(dep,), data_kind="k", __version__="0",
+                                                                    rechunk_on_save=False, compute=_same, dtype=dtype))
+    return [Src, Der, mk("der2", "der"), mk("der3", "der2")]
 
 
 def _ctx(dirs, **kw):
@@ -171,6 +178,20 @@ def _native_(i):
             res["meta_ok"], res["meta_n"], res["compressor_ok"] = True, len(original), True
             der = st3.get_array("0", "der", progress_bar=False, max_workers=i["workers"])
             res["der_ok"] = [int(x) for x in der["v"]] == [2 * r[2] for r in original]
+        elif op == "per_chunk_deep":
+            # a target three plugins above the per-chunk data type: its per-chunk pieces must not be filed under the full key
+            direct = _rows(_ctx([b]).get_array("0", "der3", progress_bar=False))
+            n_chunks = len(i["chunks"])
+            grp = [[j] for j in range(n_chunks)]
+            st.make("0", "der3", chunk_number={"src": grp[0]}, progress_bar=False)
+            fresh = _ctx([a])
+            res["stored_before_merge"] = bool(fresh.is_stored("0", "der3")) or bool(fresh.is_stored("0", "der2"))
+            for g in grp[1:]:
+                st.make("0", "der3", chunk_number={"src": g}, progress_bar=False)
+            st.merge_per_chunk_storage("0", "der3", "src", chunk_number_group=grp, rechunk=i["rechunk"])
+            res["loaded"] = _rows(_ctx([a]).get_array("0", "der3", progress_bar=False))
+            res["original"] = direct
+            res["meta_ok"], res["meta_n"], res["compressor_ok"] = True, len(direct), True
         elif op == "per_chunk":
             direct = _rows(_ctx([b]).get_array("0", "der", progress_bar=False))
             n_chunks = len(i["chunks"])
@@ -210,8 +231,9 @@ def _ens(S, a, r):
     if a.op == "rechunk_on_load":
         out += [("rechunking on load yields contiguous chunks", r["contiguous"]),
                 ("a dependent plugin computes the same from rechunked input", r["der_ok"])]
-    if a.op == "per_chunk":
-        out.append(("nothing counts as stored before the merge", r["stored_before_merge"] is False))
+    if a.op in ("per_chunk", "per_chunk_deep"):
+        out.append(("nothing counts as stored before the merge (also for data types several plugins above the per-chunk one)",
+                    r["stored_before_merge"] is False))
     if a.op == "per_chunk_partial":
         out.append(("a merge of only some chunks does not count as the complete data type", r["stored_before_merge"] is False))
     return out
@@ -236,6 +258,12 @@ def _gen(rng, tier):
         yield dict(op="copy2", chunks=chunks, rechunk=False, target_mb=200)
         for sel in (None, 0, [0], [0, len(chunks) - 1], (1,)):
             yield dict(op="dry_load", chunks=chunks, select=sel)
+    # chunk numbers that are not consecutive / not ascending, skipping a chunk that HAS rows
+    for sel in ([0, 2], [2, 0], (3, 1), [1, 3, 0]):
+        yield dict(op="dry_load", chunks=[2, 3, 1, 2], select=sel)
+    yield dict(op="per_chunk_deep", chunks=[3, 2, 4], rechunk=False)
+    yield dict(op="per_chunk_deep", chunks=[3, 2, 4], rechunk=True)
+    for chunks in layouts:
         if len(chunks) > 2:
             yield dict(op="per_chunk_partial", chunks=chunks, rechunk=True)
         n = len(chunks)
@@ -252,7 +280,8 @@ copy_preserves = Contract(
     F, "copy_to_frontend / rechunker / rechunk on load / merge_per_chunk_storage",
     params=dict(op="V", chunks="V"), ensures=_ens, raises={},
     harness=Harness(native=_native, gen=_gen,
-                    scope="stored layouts {[3,0,2],[40,5]} (thorough: also [1,1,1,1],[0,4]) rows per chunk with a 40-float field; "
+                    scope="stored layouts {[3,0,2],[40,5]} (thorough: also [1,1,1,1],[0,4]) rows per chunk with a 40-float field; dry_load_files also "
+                          "with non-consecutive / descending chunk numbers on layout [2,3,1,2]; "
                           "copy_to_frontend x compressors {zstd,bz2,keep} (thorough: +blosc,lz4) x rechunk on/off x target size; stand-alone "
                           "rechunker x the same x serial / thread (thorough: process) x replace on/off x progress bar on/off; rechunk on load "
                           "with 1 and 2 workers; per-chunk make over groupings {singletons, all, halves} + merge_per_chunk_storage, a partial merge of the later half, copy to two "
